@@ -63,6 +63,12 @@ func mkCase(rp Replay) (*Case, error) {
 			return nil, err
 		}
 		return &Case{Coq: o.coq, Replay: rp, NonTrivial: o.nontriv, Oracle: o.viol, Stream: "pos", Tags: o.tags}, nil
+	case rp.E2E != nil && rp.E2E.Kind == "tail":
+		o, err := runTail(*rp.E2E)
+		if err != nil {
+			return nil, err
+		}
+		return &Case{Coq: o.coq, Replay: rp, NonTrivial: o.nontriv, Oracle: o.viol, Stream: "tail", Tags: o.tags}, nil
 	case rp.E2E != nil && rp.E2E.Kind == "conc":
 		o, err := runConc(*rp.E2E)
 		if err != nil {
@@ -222,6 +228,9 @@ func genPos(r *Rng) E2EReplay {
 	if r.Chance(1, 5) {
 		rp.MaxRec = int64(r.PickInt(40, 64, 100)) // some records will exceed it: the batch is rejected at that event
 	}
+	if r.Chance(1, 6) {
+		rp.NoLimit = true // the service does not know the limit: nothing is rejected for its size
+	}
 	nparts := r.Range(1, 2)
 	budget := 1500
 	nreq := r.Range(2, 7)
@@ -261,6 +270,34 @@ func genConc(r *Rng) E2EReplay {
 			b = append(b, LE{Ts: int64(1000*w + i), Msg: msg, Flds: genBinFields(r, false)})
 		}
 		rp.Batches = append(rp.Batches, b)
+	}
+	return rp
+}
+
+// reading while writing: one partition, an initial batch, then 1-4 batches (rpc or direct) that arrive while a reader
+// waits at the end of the partition
+func genTail(r *Rng) E2EReplay {
+	rp := E2EReplay{Kind: "tail", MaxRec: 4096, MaxChunk: int64(r.PickInt(60, 150, 400, 4000))}
+	tags := r.PickStr("tail=1,app=t", "app=t, tail=1")
+	ts := int64(r.Range(100, 5000))
+	nb := r.Range(2, 5)
+	for b := 0; b < nb; b++ {
+		n := r.Range(1, 4)
+		if r.Chance(1, 2) {
+			var aes []AE
+			for i := 0; i < n; i++ {
+				ts += int64(r.Range(0, 3))
+				aes = append(aes, AE{Ts: ts, Msg: []byte(fmt.Sprintf("b%d-e%d-%s", b, i, r.Bytes(r.Intn(10), []byte("xyz")))), Flds: r.PickStr("", "", "f=1", "host=h1,dc=x")})
+			}
+			rp.Reqs = append(rp.Reqs, Req{Kind: "rpc", Tags: tags, Flds: r.PickStr("", "w=1"), Aes: aes})
+		} else {
+			var les []LE
+			for i := 0; i < n; i++ {
+				ts += int64(r.Range(0, 3))
+				les = append(les, LE{Ts: ts, Msg: []byte(fmt.Sprintf("b%d-d%d-%s", b, i, r.Bytes(r.Intn(10), []byte("xyz")))), Flds: genBinFields(r, false)})
+			}
+			rp.Reqs = append(rp.Reqs, Req{Kind: "dir", Tags: tags, Les: les})
+		}
 	}
 	return rp
 }
@@ -308,7 +345,26 @@ func corpus() []Replay {
 		{Kind: "rpc", Tags: "p=1,app=a", Flds: "w=1", Aes: three(70, "k="+v256)},
 		{Kind: "rpc", Tags: "p=1,app=a", Flds: "", Aes: three(80, "k="+v257+",x=y")},
 	}}
-	return []Replay{{E2E: &oversize}, {E2E: &trunc}, {E2E: &roll}, {E2E: &limit}}
+	// reading while writing, with the extras: request validation of both queriers, a wait that expires, requests after
+	// the server stopped
+	tail := E2EReplay{Kind: "tail", MaxChunk: 200, MaxRec: 4096, Extras: true, Reqs: []Req{
+		{Kind: "rpc", Tags: "tail=1,app=t", Flds: "w=1", Aes: []AE{{Ts: 1, Msg: []byte("first"), Flds: "f=1"}, {Ts: 2, Msg: []byte("second")}}},
+		{Kind: "dir", Tags: "tail=1,app=t", Les: []LE{{Ts: 3, Msg: []byte("third-direct")}, {Ts: 4, Msg: []byte("fourth-direct"), Flds: []byte("\x01k\x01v")}}},
+		{Kind: "rpc", Tags: "tail=1,app=t", Aes: []AE{{Ts: 5, Msg: []byte("fifth")}}},
+	}}
+	// MaxRecordSize 0 in the configuration: writers and readers work with the dependency's default (16384); a record
+	// above it is rejected, one just below it is stored and its write event is right
+	mk := func(n int, c byte) []byte { return []byte(strings.Repeat(string(c), n)) }
+	defRec := E2EReplay{Kind: "pos", MaxChunk: 65536, MaxRec: 0, Note: "MaxRecordSize=0: the default limit", Reqs: []Req{
+		{Kind: "dir", Tags: "p=1,app=a", Les: []LE{{Ts: 1, Msg: []byte("small")}}},
+		{Kind: "dir", Tags: "p=1,app=a", Les: []LE{{Ts: 2, Msg: []byte("before")}, {Ts: 3, Msg: mk(16384, 'o')}, {Ts: 4, Msg: []byte("after the oversize one")}}},
+		{Kind: "dir", Tags: "p=1,app=a", Les: []LE{{Ts: 5, Msg: mk(16384-12, 'f')}}},
+	}}
+	// a service without the configuration: no limit, the same oversize record is taken
+	noLim := E2EReplay{Kind: "pos", MaxChunk: 1000, MaxRec: 64, NoLimit: true, Note: "no write limit (w_limit = 0)", Reqs: []Req{
+		{Kind: "dir", Tags: "p=1,app=a", Les: []LE{{Ts: 1, Msg: []byte("small")}, {Ts: 2, Msg: mk(100, 'b')}, {Ts: 3, Msg: []byte("after")}}},
+	}}
+	return []Replay{{E2E: &oversize}, {E2E: &trunc}, {E2E: &roll}, {E2E: &limit}, {E2E: &tail}, {E2E: &defRec}, {E2E: &noLim}}
 }
 
 // ---------------------------------------------------------------- crash isolation
@@ -657,6 +713,10 @@ func main() {
 		}
 		for i := 0; i < c.N(14); i++ {
 			e := genConc(r.Fork())
+			jobs = append(jobs, Replay{E2E: &e})
+		}
+		for i := 0; i < c.N(6); i++ {
+			e := genTail(r.Fork())
 			jobs = append(jobs, Replay{E2E: &e})
 		}
 		for i := 0; i < c.N(40); i++ {
